@@ -30,6 +30,17 @@ Twin == /\ IsEvent("twin") /\ started
 
 \* decodable / direct_msg: what the library's own decoder and message mapping say of the line;
 \* reply_wire: the bus reply's own frame encoding with CR LF (empty if the bus did not reply)
+\* raw messages sent through the serial bus on one twin and directly on the other (a missing reply is a time-out on the wire)
+TwinRaw == /\ IsEvent("twinraw") /\ started
+           /\ Len(E.direct.replies) = Len(E.wire.replies)
+           /\ \A i \in 1..Len(E.msgs) :
+                 LET d == E.direct.replies[i]
+                     w == E.wire.replies[i]
+                 IN  IF ResponseExpected(E.msgs[i]) /\ d = NoReply THEN w = ErrReply   \* nobody answered: read time-out
+                     ELSE w = d
+           /\ E.direct.obs = E.wire.obs
+           /\ UNCHANGED started
+
 BridgeEv ==
     /\ IsEvent("bridge") /\ started
     /\ E.line = LineFrom(E.line, 0)                         \* exactly one line was taken from the port
@@ -44,6 +55,6 @@ BridgeEv ==
             /\ E.wrote = E.reply_wire
     /\ UNCHANGED started
 
-Next == Start \/ Twin \/ BridgeEv
+Next == Start \/ Twin \/ TwinRaw \/ BridgeEv
 Spec == Init /\ [][Next]_vars
 =============================================================================
